@@ -39,6 +39,37 @@ theorem sphere_interface (R : ℝ) (hR : 0 < R) (pol x : V3 ℝ) (hx : Kern.norm
     linear_combination (-3 * (pol.x * x.x + pol.y * x.y + pol.z * x.z)) * hsq
   · apply V3.ext' <;> simp only [V3.cross, V3.dot, vs, vd, V3.sub_x, V3.sub_y, V3.sub_z] <;> field_simp <;> ring
 
+/-! (added by the audit) `sphere_interface` is about `sphereOutB`, a formula written separately in Lemmas/KernReal.lean, and a
+hand-written inside value; nothing above ties either to the model `bhjmSphere` the driver runs.  The tie, and the interface
+conditions stated on the model: -/
+theorem sphereOutB_is_model (d : ℝ) (pol x : V3 ℝ) (hout : |d| / 2 < Kern.norm x) :
+    bhjmSphere .B d pol x = sphereOutB (|d| / 2) pol x ∧
+    bhjmSphere .H d pol x = vd (sphereOutB (|d| / 2) pol x) mu0R := by
+  constructor <;>
+  simp only [bhjmSphere, sphereOutB, lt_real, abs_real, n, ofNat_real, Nat.cast_ofNat, hout, decide_true, if_true, mu0_real]
+
+theorem sphere_surface_is_inside_formula (d : ℝ) (pol x : V3 ℝ) (hin : ¬ |d| / 2 < Kern.norm x) :
+    bhjmSphere .B d pol x = vs (2 / 3) pol ∧
+    bhjmSphere .H d pol x = vd (vs (2 / 3) pol - pol) mu0R := by
+  constructor <;>
+  simp only [bhjmSphere, lt_real, abs_real, n, ofNat_real, Nat.cast_ofNat, hin, decide_false, if_false,
+    Bool.false_eq_true, mu0_real]
+
+/-- interface conditions on the model: the outside branch continued to |x| = |d|/2 has the same normal B and
+tangential H as what `bhjmSphere` returns there (its inside branch) -/
+theorem sphere_interface_model (d : ℝ) (hd : d ≠ 0) (pol x : V3 ℝ) (hx : Kern.norm x = |d| / 2) :
+    V3.dot (sphereOutB (|d| / 2) pol x) x = V3.dot (bhjmSphere .B d pol x) x ∧
+    V3.cross (vd (sphereOutB (|d| / 2) pol x) mu0R) x = V3.cross (bhjmSphere .H d pol x) x := by
+  have hR : 0 < |d| / 2 := by positivity
+  have hin : ¬ |d| / 2 < Kern.norm x := by rw [hx]; exact lt_irrefl _
+  obtain ⟨hB, hH⟩ := sphere_surface_is_inside_formula d pol x hin
+  rw [hB, hH]
+  exact sphere_interface (|d| / 2) hR pol x hx
+
+example : (2 : ℝ) ≠ 0 ∧ Kern.norm (⟨0, 0, 1⟩ : V3 ℝ) = |(2 : ℝ)| / 2 := by
+  refine ⟨two_ne_zero, ?_⟩
+  simp [Kern.norm]
+
 /-- inside the ball B − μ₀H = J: the term that closes the flux law inside the magnet -/
 theorem sphere_inside_B_minus_mu0H (d : ℝ) (pol x : V3 ℝ) (hin : ¬ |d| / 2 < Kern.norm x) :
     bhjmSphere .B d pol x - vs mu0R (bhjmSphere .H d pol x) = pol := by
@@ -46,6 +77,9 @@ theorem sphere_inside_B_minus_mu0H (d : ℝ) (pol x : V3 ℝ) (hin : ¬ |d| / 2 
   simp only [bhjmSphere, lt_real, abs_real, n, ofNat_real, Nat.cast_ofNat, hin, decide_false, if_false,
     Bool.false_eq_true, mu0_real]
   apply V3.ext' <;> simp [vs, vd] <;> field_simp <;> ring
+-- non-vacuity (audit): strictly inside, and exactly on the surface
+example : ¬ |(2 : ℝ)| / 2 < Kern.norm (⟨0, 0, 1 / 2⟩ : V3 ℝ) := by rw [norm_axis_z (1 / 2) (by norm_num)]; norm_num
+example : ¬ |(2 : ℝ)| / 2 < Kern.norm (⟨0, 0, 1⟩ : V3 ℝ) := by rw [norm_axis_z 1 (by norm_num)]; norm_num
 
 /-! ### local forms of the two laws: Dipole -/
 
@@ -288,8 +322,9 @@ theorem segment_div_free (cur : ℝ) (p1 p2 : V3 ℝ) (x y z : ℝ)
       dxx + dyy + dzz = 0 :=
   SegBS.segment_divFree cur p1 p2 ⟨x, y, z⟩ hoff
 
-/-- div B = 0 for what `BHJM_current_polyline` returns for `field="B"` on a row that passes its
-masks (`B = μ₀ H`) -/
+/-- div B = 0 for `q ↦ μ₀ · segmentH … q`, the UNMASKED kernel times μ₀.  (Audit: this is a statement about that lambda, not about
+`bhjmSegment .B`: the wrapper agrees with it pointwise on rows that pass the masks (C15.polyline_masks_cover_singular), but
+it is not differentiable across the relative-1e-15 on-line mask shell, so no div statement about the wrapper follows there.) -/
 theorem segment_B_div_free (cur : ℝ) (p1 p2 p : V3 ℝ)
     (hoff : 0 < SegBS.nsq (V3.cross (p2 - p1) (p - p1))) :
     DivFreeAt (fun q => vs mu0R (segmentH cur p1 p2 q)) p := by
@@ -300,5 +335,7 @@ theorem segment_B_div_free (cur : ℝ) (p1 p2 p : V3 ℝ)
 -- non-vacuity: a skew segment and an observer off its line
 example : DivFreeAt (segmentH 2 (⟨1, 2, 3⟩ : V3 ℝ) ⟨-1, 0, 5⟩) ⟨4, 4, 4⟩ :=
   segment_div_free 2 _ _ 4 4 4 (by simp [SegBS.nsq, V3.cross]; norm_num)
+example : DivFreeAt (fun q => vs mu0R (segmentH 2 (⟨1, 2, 3⟩ : V3 ℝ) ⟨-1, 0, 5⟩ q)) ⟨4, 4, 4⟩ :=
+  segment_B_div_free 2 _ _ _ (by simp [SegBS.nsq, V3.cross]; norm_num)
 
 end MagpyVerif.C14
